@@ -86,9 +86,9 @@ def first(a_set):
 def _ensure_multiline_string_triple_quoted(value):
     # converting the value to a string
     s = str(value)
-    # Escaping any double quote
-    s = s.replace('"', '\\"')
-    if "\n" in s:
+    # Escaping any backslash and double quote
+    s = s.replace("\\", "\\\\").replace('"', '\\"')
+    if "\n" in s or "\r" in s:
         return '"""%s"""' % s
     else:
         return '"%s"' % s
